@@ -13,7 +13,11 @@ REQUIRED = ['cw_exact', 'cw_none', 'cw_unique',
             'smithSpec_dominating', 'smithSpec_nonempty', 'smithSpec_least',
             'schwartzSpec_is_union_of_minimal_undominated',
             'smith_is_least_dominating', 'schwartz_is_union_of_minimal_undominated',
-            'smith_nodup', 'schwartz_nodup', 'smith_of_cw', 'schwartz_subset_smith', 'dominating_iff', 'undominated_iff']
+            'smith_nodup', 'schwartz_nodup', 'smith_of_cw', 'schwartz_subset_smith', 'dominating_iff', 'undominated_iff',
+            # dictionaries with self-pairs (WFd: the no-self-pair clause of WF dropped), round o
+            'wfd_of_wf', 'smith_exact_diag', 'schwartz_exact_diag', 'smith_is_least_dominating_diag',
+            'schwartz_is_union_of_minimal_undominated_diag', 'self_pair_is_candidate', 'cw_exact_diag', 'cw_none_diag',
+            'cw_one_candidate']
 UNPROVED = []
 NAME_MODES = ['str', 'int0', 'empty0', 'person', 'tuple']
 REQUIRED_COUNTERS = ['fully_tied_pair', 'mutually_tied_unbeaten', 'missing_pair', 'missing_reverse', 'has_cw', 'cycle',
@@ -22,7 +26,10 @@ REQUIRED_COUNTERS = ['fully_tied_pair', 'mutually_tied_unbeaten', 'missing_pair'
                      'ntype:decimal', 'ntype:decimal_long', 'ntype:float_dyadic', 'ntype:float_nd', 'ntype:fraction_all',
                      'zero_count', 'big', 'close_fraction', 'wtype:fraction', 'wtype:bigint', 'wtype:decimal', 'wtype:float',
                      'names:int0', 'names:empty0', 'names:person', 'cands_6_7', 'long_cycle', 'smith_ne_schwartz',
-                     'twice', 'shared_instance']
+                     'twice', 'shared_instance',
+                     # self-pairs (matrix diagonal entries such as ('Z','Z'): 0), round o
+                     'self_pair', 'diag_full', 'diag_partial', 'diag_only_cand', 'one_candidate',
+                     'only_self_pairs', 'diag_nonzero']
 RULE = ('pairwise dictionaries over 2-6 candidates (7 occasionally): per unordered pair one of x wins / y wins / tie / both '
         'absent / reverse absent / zero-count entries, integer and Fraction counts, shuffled insertion order; dictionaries '
         'derived with the real RankedToCondorcetVotes (both unranked_at_bottom settings) from profiles with truncated '
@@ -31,7 +38,10 @@ RULE = ('pairwise dictionaries over 2-6 candidates (7 occasionally): per unorder
         'of eight states to 3 candidates; counts as int / Fraction / Decimal (short and 7 decimals) / float (dyadic and '
         'non-dyadic) / integers of 10^9..10^30 / Fractions differing in the 12th digit; candidates as strings, ints incl. 0, the '
         'empty string, Person objects; long majority cycles and 5-7 candidate profiles with every weight type; selector objects '
-        'fresh, shared by the whole run, and called after another (larger) input.  Ops cw, smith, schwartz, compared as sets.  Non-trivial = at least 3 candidates.')
+        'fresh, shared by the whole run, and called after another (larger) input; self-pairs (x, x): a full matrix diagonal, a partial one, '
+        'one or two candidates that occur ONLY in a self-pair next to others (they are candidates: zero against zero with everybody), '
+        'dictionaries of self-pairs only incl. the one-candidate dictionary {(a, a): 0}, zero and non-zero diagonal counts, on a '
+        'quarter of the random cases and as directed shapes.  Ops cw, smith, schwartz, compared as sets.  Non-trivial = at least 3 candidates.')
 NOT_VERIFIED = ['dict insertion order is the protocol order (CPython dict semantics)',
                 'int/Fraction comparison is exact rational comparison']
 EXHAUSTIVE = {'thorough': True}
@@ -68,9 +78,94 @@ def _directed(rng):
             yield _mk(op, e2, [tag, 'directed'])
 
 
+DIAG_MODES = ['diag_full', 'diag_partial', 'diag_only_cand', 'diag_only_cand', 'diag_full+only']
+
+
+def _cands(votes):
+    out = []
+    for a, b, _ in votes:
+        for c in (a, b):
+            if c not in out:
+                out.append(c)
+    return out
+
+
+def _add_diag(rng, votes, mode, zero_only=False):
+    """self-pairs [x, x, count] added to a pairwise dictionary: the diagonal of a pairwise matrix (all candidates / some of
+    them) and/or one or two NEW candidates that occur only in a self-pair; the diagonal count is 0 (usual), or one non-negative
+    value for the whole diagonal, or arbitrary small values; positions: matrix order (before the first entry of the row),
+    appended, or shuffled in"""
+    cands = _cands(votes)
+    r = rng.random()
+    if zero_only or r < 0.6:
+        val = lambda: '0'
+    elif r < 0.8:
+        k = num_str(rng.randint(1, 9))
+        val = lambda: k
+    else:
+        val = lambda: num_str(rng.choice([0, 1, 2, 5, Fraction(1, 2)]))
+    selfs = []
+    if 'diag_full' in mode:
+        selfs += [[c, c, val()] for c in cands]
+    if 'diag_partial' in mode and cands:
+        selfs += [[c, c, val()] for c in rng.sample(cands, rng.randint(1, max(1, len(cands) - 1)))]
+    if 'only' in mode:
+        new = (max(cands) + 1) if cands else 0
+        selfs += [[new + i, new + i, val()] for i in range(rng.choice([1, 1, 1, 2]))]
+    out = [list(e) for e in votes]
+    place = rng.choice(['row', 'append', 'shuffle', 'prepend'])
+    if place == 'append':
+        out = out + selfs
+    elif place == 'prepend':
+        out = selfs + out
+    elif place == 'shuffle':
+        out = out + selfs
+        rng.shuffle(out)
+    else:
+        for e in selfs:
+            idx = next((i for i, x in enumerate(out) if x[0] == e[0]), len(out))
+            out.insert(idx, e)
+    return out
+
+
+def _diag_directed(rng):
+    """self-pair shapes: one-candidate dictionaries, self-pairs only, a candidate known only from its self-pair next to a
+    Condorcet winner / a cycle / a tie / a single zero entry, full matrices with a diagonal"""
+    base = [
+        ([(0, 1, 3), (1, 0, 1)], 'pair'),
+        ([(0, 1, 3)], 'pair_sparse'),
+        ([(0, 1, 3), (1, 2, 3), (0, 2, 3)], 'chain_sparse'),
+        ([(0, 1, 3), (1, 0, 1), (1, 2, 3), (2, 1, 1), (0, 2, 3), (2, 0, 1)], 'chain'),
+        ([(0, 1, 3), (1, 2, 3), (2, 0, 3)], 'cycle_sparse'),
+        ([(0, 1, 2), (1, 0, 2)], 'tie'),
+        ([(0, 1, 0)], 'zero_entry'),
+        ([(0, 1, 4), (1, 0, 1), (0, 2, 2), (2, 0, 2), (1, 2, 3), (2, 1, 3)], 'matrix3'),
+    ]
+    for zero in ('0', '0', '4'):
+        yield [[0, 0, zero]], ['d_one_candidate']
+        k = rng.randint(1, 5)
+        yield [[k, k, zero]], ['d_one_candidate']
+        yield [[0, 0, zero], [1, 1, zero]], ['d_only_self_pairs']
+        three = [[0, 0, zero], [1, 1, zero], [2, 2, zero]]
+        rng.shuffle(three)
+        yield three, ['d_only_self_pairs']
+    for ent, name in base:
+        m = 1 + max(max(a, b) for a, b, _ in ent)
+        for mode in ('diag_only_cand', 'diag_full', 'diag_full+only', 'diag_partial'):
+            perm = list(range(m))
+            rng.shuffle(perm)
+            e2 = [[perm[a], perm[b], num_str(c)] for a, b, c in ent]
+            rng.shuffle(e2)
+            yield _add_diag(rng, e2, mode, zero_only=(mode == 'diag_only_cand')), ['d_' + mode + '_' + name]
+
+
 def _gen(rng, tier):
     N = 1500 if tier == 'quick' else 30000
     yield from _directed(rng)
+    for rep in range(1 if tier == 'quick' else 10):
+        for votes, tags in _diag_directed(rng):
+            for op in OPS:
+                yield _mk(op, votes, tags + ['directed'])
     # long majority cycles (4-7 candidates) and large profiles with every weight type, through the real converter
     import families
     for t in range(12 if tier == 'quick' else 120):
@@ -94,6 +189,8 @@ def _gen(rng, tier):
             kind = rng.choice(['dense', 'sparse', 'sparse', 'tied', 'plain'])
             votes = CC.random_pairwise(rng, m, kind)
             tags = ['kind_' + kind]
+            if rng.random() < 0.25:
+                votes = _add_diag(rng, votes, rng.choice(DIAG_MODES))
             if votes and rng.random() < 0.3 and all('/' not in s and len(s) < 6 for _, _, s in votes):
                 nt = CC.NTYPES[k % len(CC.NTYPES)]
                 votes = CC.retype_votes(votes, nt)
@@ -104,6 +201,9 @@ def _gen(rng, tier):
             uab = rng.random() < 0.5
             votes = CC.profile_to_pairwise(prof, uab)
             tags = ['from_ranked', 'uab_true' if uab else 'uab_false'] + (['wtype:' + wtype] if wtype != 'int' else [])
+            if votes and rng.random() < 0.15:
+                votes = _add_diag(rng, votes, rng.choice(DIAG_MODES), zero_only=True)
+                tags = [t for t in tags if t != 'from_ranked'] + ['from_ranked_plus_diag']
         if not votes:
             continue
         for op in OPS:
@@ -142,6 +242,23 @@ def generate(rng, tier):
             c['_tags'].append('long_cycle')
         if sm != CC.schwartz_set(d, cands):
             c['_tags'].append('smith_ne_schwartz')
+        selfs = [a for a, b, _ in c['votes'] if a == b]
+        if selfs:
+            c['_tags'].append('self_pair')
+            others = {x for a, b, _ in c['votes'] if a != b for x in (a, b)}
+            only = [a for a in selfs if a not in others]
+            if len(cands) == 1:
+                c['_tags'].append('one_candidate')
+            elif not others:
+                c['_tags'].append('only_self_pairs')
+            if only and others:
+                c['_tags'].append('diag_only_cand')      # such a candidate is beaten by nobody: always a Smith and Schwartz member
+            if set(selfs) == set(cands) and others:
+                c['_tags'].append('diag_full')
+            elif others and set(selfs) & others:
+                c['_tags'].append('diag_partial')
+            if any(Fraction(s) != 0 for a, b, s in c['votes'] if a == b):
+                c['_tags'].append('diag_nonzero')
         # state between calls: a third of the cases use the selector object shared by the whole run, half of those after
         # another (larger) input
         r = rng.random()
@@ -236,9 +353,11 @@ def describe(case):
 TECHNIQUE = ('Lean 4 proof that the transitive-closure loop of _smith_schwartz_set computes reachability and that the '
              'reachability sets are the textbook Smith / Schwartz sets (unbounded) + differential correspondence with votelib')
 LEVEL_TEXT = ('CondorcetWinner, SmithSet and SchwartzSet (pairwise_wins, beat_counts, Copeland ordering, the closure loop) are '
-              'modelled line for line; for every well-formed pairwise dictionary (distinct keys, no self-pair, non-negative '
-              'counts; absent pair = 0:0) the model output is proved to be exactly the Condorcet winner / the least non-empty '
-              'dominating set / the union of the minimal non-empty undominated sets; the model is tied to /repo by a differential '
+              'modelled line for line; for every well-formed pairwise dictionary (distinct keys, non-negative counts; absent pair '
+              '= 0:0; self-pairs such as a matrix diagonal allowed - the *_diag theorems - and a candidate named only by a '
+              'self-pair is a candidate) the model output is proved to be exactly the Condorcet winner (two or more candidates; '
+              'with one candidate, only expressible as {(a, a): n}, the selector returns nothing: cw_one_candidate) / the least '
+              'non-empty dominating set / the union of the minimal non-empty undominated sets; the model is tied to /repo by a differential '
               'correspondence on every check plus a brute-force oracle of the three definitions on the implementation.')
 LEVEL_NOTE = ('Trusted: Lean kernel + propext/Classical.choice/Quot.sound; the correspondence harness (bounded by its generator: '
-              '2-7 candidates, int/Fraction counts); CPython dict order and exact comparison of numeric types.')
+              '1-8 candidates, int/Fraction/Decimal/float counts, with and without self-pairs); CPython dict order and exact comparison of numeric types.')
